@@ -115,6 +115,18 @@ def c08_mixed_stream(seed, records):
     return {"violates": False, "cases": cases}
 
 
+def c08_record_operand(expr, engine):
+    from flow.record import RecordDescriptor
+
+    A = RecordDescriptor("c08/inner", [("string", "s")])
+    b = RecordDescriptor("c08/holder", [("record", "sub"), ("record[]", "subs")])(sub=A(s="x"), subs=[A(s="y")])
+    try:
+        r = _engine(engine)(expr).match(b)
+        return {"violates": bool(r), "detail": f"{expr!r} on a record whose other operand is a nested record: {r!r}" if r else None}
+    except Exception as e:
+        return {"violates": True, "detail": f"{expr!r}: raised {type(e).__name__}: {e}"}
+
+
 def c08_reader_json(engine, expr, want):
     from flow.record import selector as S
     from flow.record.adapter.jsonfile import JsonfileReader
@@ -187,4 +199,4 @@ def c08_mixed(expr="r.pid == 5", engine="Selector"):
     return {"violates": out != want, "got": out, "expected": want}
 
 
-CALLS = {"c08_reader_json": c08_reader_json, "c08_helper_reserved": c08_helper_reserved, "c08_reader": c08_reader, "c08_mixed": c08_mixed, "c08_eval": c08_eval, "c08_select": c08_select, "c08_ctx": c08_ctx, "c08_helper": c08_helper, "c08_helper_regex": c08_helper_regex, "c08_mixed_stream": c08_mixed_stream}
+CALLS = {"c08_record_operand": c08_record_operand, "c08_reader_json": c08_reader_json, "c08_helper_reserved": c08_helper_reserved, "c08_reader": c08_reader, "c08_mixed": c08_mixed, "c08_eval": c08_eval, "c08_select": c08_select, "c08_ctx": c08_ctx, "c08_helper": c08_helper, "c08_helper_regex": c08_helper_regex, "c08_mixed_stream": c08_mixed_stream}
